@@ -254,6 +254,9 @@ func (m *machine) genBatch(t *rapid.T, typ node.RootType, pm kv.Model, sibs []*c
 	nseg := rapid.IntRange(1, 3).Draw(t, "nseg")
 	for s := 0; s < nseg; s++ {
 		mode := rapid.IntRange(0, 15).Draw(t, "shape")
+		if s == 0 && len(sibs) > 0 && len(ops) == 0 && rapid.IntRange(0, 2).Draw(t, "fromSibling") == 0 {
+			mode = 4 + rapid.IntRange(0, 1).Draw(t, "sibSame")
+		}
 		if typ == node.RootTypeIO && mode == 15 && m.lastState != nil && len(m.lastState.Model) > 0 && !ev.Excluded(SigCross) {
 			// IO batch copies a key/value pair of the state tree (identical leaf in two root types)
 			ks := m.lastState.Model.SortedKeys()
@@ -456,6 +459,11 @@ func (m *machine) commit(t *rapid.T, typ node.RootType) {
 	}
 	ops, shapes := m.genBatch(t, typ, pm, sibs)
 	nm := applyOps(pm, ops)
+	if len(nm) == 0 && rapid.IntRange(0, 3).Draw(t, "keepEmpty") > 0 {
+		// explicitly committed empty roots make badger reject every later Prune of that version (counted as
+		// not accepted); keep them rare so that histories with prunes stay frequent
+		return
+	}
 	heavy := len(nm) >= 2 && len(ops) > 0
 	wantHash, _ := refNodes(nm)
 	var same *cand
@@ -675,7 +683,56 @@ func (m *machine) finalize(t *rapid.T) {
 		}
 		_ = danger
 	}
-	roots := make([]node.Root, 0, 2)
+	// Two sibling state roots finalized in one version. Real callers never do this and pathbadger must reject it
+	// (without damage); badger supports it and its own tests do it (testPruneLoneRoots) - the sibling without
+	// successors is then the only kind of root whose Prune walks nodes inherited from earlier versions. Offered only
+	// when neither sibling put a node the other one contains, both retain the same nodes of their common parent and
+	// no finding's precondition is met.
+	two := false
+	if len(m.reps) == 1 && len(states) >= 2 {
+		p := 1
+		if m.reps[0].backend == "pathbadger" {
+			p = 30
+		}
+		if rapid.IntRange(0, p).Draw(t, "twoSiblings") == 0 {
+			f1 := fin[0]
+			head := func(c *cand) bool { return c.Parent == nil || c.Parent.Root.Version != vr.V }
+			apart := func(a, b *cand) bool {
+				for h := range a.Puts[0] {
+					if b.nodeSet()[h] {
+						return false
+					}
+				}
+				return true
+			}
+			// badger deletes the nodes one finalized root removed even if a finalized sibling still inherits them, so
+			// both siblings must retain exactly the same nodes of their common parent
+			sameInherited := func(a, b *cand) bool {
+				if a.Parent != b.Parent || a.Parent == nil {
+					return false
+				}
+				for h := range a.Parent.nodeSet() {
+					if a.nodeSet()[h] != b.nodeSet()[h] {
+						return false
+					}
+				}
+				return true
+			}
+			var others []*cand
+			for _, c := range states {
+				if c != f1 && head(c) && head(f1) && apart(c, f1) && apart(f1, c) && sameInherited(c, f1) && !c.Root.Hash.IsEmpty() && !f1.Root.Hash.IsEmpty() {
+					others = append(others, c)
+				}
+			}
+			if len(others) > 0 {
+				fin2 := append([]*cand{f1, others[rapid.IntRange(0, len(others)-1).Draw(t, "sibling2")]}, fin[1:]...)
+				if sm, cr := sharedDanger(vr, fin2, 0); !sm && !cr {
+					fin, two = fin2, true
+				}
+			}
+		}
+	}
+	roots := make([]node.Root, 0, 3)
 	for _, f := range fin {
 		roots = append(roots, f.Root)
 	}
@@ -701,6 +758,9 @@ func (m *machine) finalize(t *rapid.T) {
 	if nok != len(m.reps) {
 		m.diverge("finalize", acc)
 		return
+	}
+	if two {
+		m.rec.Label("finalize:two-state-siblings")
 	}
 	isFin := map[*cand]bool{}
 	for _, f := range fin {
@@ -1091,7 +1151,7 @@ func runMachine(t *rapid.T, rec *ev.Recorder, backends []string, cur **machine) 
 			}
 		}
 	}()
-	m.uni = kv.GenUniverse(t, rapid.IntRange(2, ev.Pick(25, 60)).Draw(t, "nuni"), false)
+	m.uni = kv.GenUniverse(t, rapid.IntRange(3, ev.Pick(25, 60)).Draw(t, "nuni"), false)
 	m.startV = uint64(rapid.SampledFrom([]int{0, 1, 1, 7}).Draw(t, "startV"))
 	m.maxVers = rapid.IntRange(3, ev.Pick(12, 40)).Draw(t, "maxVers")
 	m.keepLag = uint64(rapid.IntRange(1, 3).Draw(t, "keepLag"))
